@@ -6,7 +6,7 @@ META = {
     "title": "ppv-lite86 word-wise vector operations equal their scalar lane meaning on every back end",
     "design_ref": "6/C12",
     "technique": "Coq proof about intrinsic-level models of the x86-64 back ends (Model/Intrinsics.v, PpvSse.v, PpvAvx2.v): each (capability variant, type, operation group) equals the lane-wise contract Spec/Lanes.v for all operands (word lemmas, symbolic conversion on 16 byte variables, finite sweeps for the 16-bit-lane swaps); portable back end and soft.rs forwarding in Props/C12g.v; differential correspondence implementation = model = contract on generated cases for SSE2, SSSE3, SSE4.1, AVX, AVX2 and the portable back end; the intrinsic models are compared with this CPU on every run",
-    "level_text": "Machine-checked theorems in Props/C12.v (x86-64 back ends, intrinsic-level models) and Props/C12g.v (portable back end generic.rs and the soft.rs x2/x4 wrappers), all closed under the global context, each for ALL operands: add = wrapping add per 32/64-bit word (C12_sse_u32x4/u64x2_add_lanewise, C12_avx2_add_lanewise, C12g_portable_binop_lanewise); xor/and/or/not/andnot word-wise for 4-, 8- and 16-byte words (C12_sse_bitops_lanewise, C12_avx2_bitops_lanewise); rotate_each_word_right k for every k the traits offer, in the shift-or, pshuflw/pshufhw, pshufd and pshufb forms of both SSSE3 capability variants (C12_sse_u32x4/u64x2/u128x1_rotr_lanewise, C12_avx2_rotr_lanewise, C12g_portable_unop_lanewise); word shuffles are the named permutations (C12_sse_u32x4/u64x4_shuffle_is_perm, C12_avx2_lane_shuffle_is_perm, C12g_portable_u64x4_shuffle_is_perm); bswap = byte reversal per word (both variants); swap1..swap64 move bit j to bit j xor n (C12_sse_u128x1_swap_is_bitgroup_swap, by a 65536-value sweep of a 16-bit lane lifted to all operands, and C12g swap theorems); the x2/x4 forms apply the 1-lane operation to each lane (C12g forwarding theorems); every operation returns Ok in both build profiles (C12g totality). Six of these statements were false on the pinned tree (defects P1, P2, P3, P5, P7, P14, repaired by fix: commits). Implementation = model = lane contract is checked on generated operands on SSE2, SSSE3, SSE4.1, AVX, AVX2 and the portable back end; the intrinsic models are compared with this CPU.",
+    "level_text": "Machine-checked theorems in Props/C12.v (x86-64 back ends, intrinsic-level models) and Props/C12g.v (portable back end generic.rs and the soft.rs x2/x4 wrappers), all closed under the global context, each for ALL operands: add = wrapping add per 32/64-bit word (C12_sse_u32x4/u64x2_add_lanewise, C12_avx2_add_lanewise, C12g_portable_binop_lanewise); xor/and/or/not/andnot word-wise for 4-, 8- and 16-byte words (C12_sse_bitops_lanewise, C12_avx2_bitops_lanewise); rotate_each_word_right k for every k the traits offer, in the shift-or, pshuflw/pshufhw, pshufd and pshufb forms of both SSSE3 capability variants (C12_sse_u32x4/u64x2/u128x1_rotr_lanewise, C12_avx2_rotr_lanewise, C12g_portable_unop_lanewise); word shuffles are the named permutations (C12_sse_u32x4/u64x4_shuffle_is_perm, C12_avx2_lane_shuffle_is_perm, C12g_portable_u64x4_shuffle_is_perm); bswap = byte reversal per word (both variants); swap1..swap64 move bit j to bit j xor n (C12_sse_u128x1_swap_is_bitgroup_swap, by a 65536-value sweep of a 16-bit lane lifted to all operands, and C12g swap theorems); the x2/x4 forms apply the 1-lane operation to each lane (C12g forwarding theorems); every operation returns Ok in both build profiles (C12g totality). Six of these statements were false on the pinned tree (defects P1, P2, P3, P5, P7, P14, repaired by fix: commits). Implementation = model = lane contract is checked on generated operands on SSE2, SSSE3, SSE4.1, AVX, AVX2 and the portable back end; the intrinsic models are compared with this CPU. Wide types on x86 (Proofs/PpvWide*.v): the x86-side copies of the soft.rs wrappers in Model/PpvSse.v are proved equal to Model/PpvSoft.v at the register type; the compound-assignment macros fwd_binop_assign_x2/x4 are modelled statement by statement (Model/PpvSoftAssign.v) and proved equal to the binary forms; composed lane theorems C12_wide_* for every x86 wide type (u32x4x2/x4, u64x2x2/x4, u64x4, u128x2/x4, u32x4x4_avx2): add, bit operations incl. not/andnot, rotate_each_word_right, bswap, lane-word shuffles, swapN; with them every (back end, type, operation) triple required by types.rs has a composed statement (coverage table in notes/ppv-wide.md: 1206 of 1206).",
     "level_note": "Trusted: Coq kernel+VM; Spec/Lanes.v; Model/Intrinsics.v (intrinsic semantics, validated against the host CPU on the same operand streams); hand-written models tied on generated cases; harness. No axioms.",
     "rule": "x86 back ends: for each of the machines SSE2, SSSE3, SSE41, AVX, AVX2 every (type, method) the Machine bounds expose plus the methods the concrete types add (u128 bswap, and/or-assign, u32x4x2 lane shuffles); operands built with Machine::unpack and read with Into<storage>: zero, all-ones, byte-index pattern, high-bit patterns, carry chains, seeded random, walking-one basis (every bit for 128-bit types, every 7th bit for wider types in the quick tier, every bit in thorough); distinct = distinct (machine, type, op, parameter, operands); non-trivial = some operand byte non-zero; implementation outcome (ok/panic) and result compared with the intrinsic-level model and with the lane-wise contract inside coqc. Raw intrinsics: each _mm_*/_mm256_* the crate issues, same streams, the immediates of the source plus boundary ones, compared with Model/Intrinsics.v",
     "assumptions": ["little-endian x86-64 host with AVX2 (all five x86 machines are executed directly on it)"],
